@@ -151,12 +151,50 @@ def extract(tree):
         g = csrc.func_body(tab, fn)
         if not re.search(r"for\s*\(\s*int\s+i\s*=\s*JANET_MAX_PROTO_DEPTH\s*;\s*t\s*&&\s*i\s*;\s*t\s*=\s*t->proto\s*,\s*--i\s*\)", g):
             raise ExtractError("%s: prototype loop header changed" % fn)
+    pf = re.sub(r"\s+", " ", csrc.func_body(tab, "janet_table_proto_flatten"))
+    if re.search(r"JanetTable \*newTable = janet_table\(0\); while \(t\) \{", pf):
+        out["flatten_bounded"] = False
+    elif re.search(r"JanetTable \*newTable = janet_table\(0\); for \(int i = JANET_MAX_PROTO_DEPTH; t && i; --i\) \{", pf):
+        out["flatten_bounded"] = True
+    else:
+        raise ExtractError("janet_table_proto_flatten: prototype loop header not recognised")
+    if not re.search(r"janet_table_put_no_overwrite\(newTable, kv->key, kv->value\); kv\+\+; \} t = t->proto; \} return newTable;", pf):
+        raise ExtractError("janet_table_proto_flatten: loop body not recognised")
     st = csrc.strip_comments(csrc.read(tree, "src/core/struct.c"))
     sb = csrc.func_body(st, "janet_struct_begin")
     m = re.search(r"int32_t\s+capacity\s*=\s*janet_tablen\s*\((.+?)\)\s*;", sb)
     if not m:
         raise ExtractError("janet_struct_begin: capacity expression not recognised")
     out["struct_cap"] = lean_expr(m.group(1), {"count": "count"})
+    # ---- boot.janet: the constructor-like functions start from a fresh `@{}` and only `put` into it
+    boot = csrc.read(tree, "src/boot/boot.janet")
+
+    def defn_text(name):
+        m = re.search(r"^\(defn %s\n" % re.escape(name), boot, re.M)
+        if not m:
+            raise ExtractError("boot.janet: (defn %s ...) not found" % name)
+        e = boot.find("\n(", m.end())
+        while e >= 0 and not re.match(r"\n\((defn|defmacro|def|var|defn-|defmacro-|defdyn|setdyn|put|each|do)\b", boot[e:e + 12]):
+            e = boot.find("\n(", e + 1)
+        txt = boot[m.start():e if e >= 0 else len(boot)]
+        txt = re.sub(r"``.*?``", "", txt, flags=re.S)       # long-string doc
+        txt = re.sub(r"`[^`]*`", "", txt, flags=re.S)
+        txt = re.sub(r'"(?:[^"\\]|\\.)*"', "", txt, flags=re.S)
+        txt = re.sub(r"#[^\n]*", "", txt)
+        return re.sub(r"\s+", " ", txt).strip()
+    shapes = {
+        "merge": "(defn merge [& colls] (def container @{}) (loop [c :in colls key :keys c] (put container key (in c key))) container)",
+        "merge-into": "(defn merge-into [tab & colls] (loop [c :in colls key :keys c] (put tab key (in c key))) tab)",
+        "from-pairs": "(defn from-pairs [ps] (def ret @{}) (each [k v] ps (put ret k v)) ret)",
+        "zipcoll": "(defn zipcoll [ks vs] (def res @{}) (var kk nil) (var vk nil) (while true (set kk (next ks kk)) (if (= nil kk) (break)) "
+                   "(set vk (next vs vk)) (if (= nil vk) (break)) (put res (in ks kk) (in vs vk))) res)",
+        "update": "(defn update [ds key func & args] (def old (get ds key)) (put ds key (func old ;args)))",
+    }
+    for name, want in shapes.items():
+        got = defn_text(name)
+        if got != want:
+            raise ExtractError("boot.janet `%s` no longer has the modelled shape (fresh @{} filled by put): %r" % (name, got[:300]))
+    out["boot_shapes"] = sorted(shapes)
     return out
 
 
@@ -177,6 +215,10 @@ def render(tree):
     o.append("abbrev maxProtoDepth : Nat := %d\n" % c["max_proto_depth"])
     o.append("/-- `janet_struct_begin`: capacity for `count` entries -/")
     o.append("def structCap (count : Nat) : Nat := tablen (%s)\n" % c["struct_cap"])
+    o.append("/-- `janet_table_proto_flatten` walks at most `JANET_MAX_PROTO_DEPTH` prototypes (true) or until NULL (false: does\nnot terminate on a cyclic chain) -/")
+    o.append("abbrev flattenBounded : Bool := %s\n" % ("true" if c["flatten_bounded"] else "false"))
+    o.append("/-- boot.janet functions whose source text was checked against the modelled shape (a fresh `@{}` filled by `put`;\nmerge-into / update write into their first argument) -/")
+    o.append("def bootShapesChecked : List String := [%s]\n" % ", ".join('"%s"' % n for n in c["boot_shapes"]))
     o.append("end JanetModel.Gen.Table\n")
     return "\n".join(o)
 
